@@ -427,6 +427,97 @@ theorem render_decode_eq (T : Tables) (u : List String) :
           rw [fields_eq (compatS T u m) T s p.conf true (hall p hp) fs (fun e he => ih e he m)]
       | _ => simp [tyRel] at hrel
 
+/-! ### completing a description with nil fields does not change what the user writes in YAML -/
+
+theorem renderFs_append (p : Policy) (T : Tables) (s : String) (a b : List (String × V)) :
+    renderFs p T s (a ++ b) = renderFs p T s a ++ renderFs p T s b := by
+  induction a with
+  | nil => rfl
+  | cons e rest ih =>
+    obtain ⟨k, x⟩ := e
+    simp only [List.cons_append, renderFs]
+    cases findH T s k with
+    | none => exact ih
+    | some f =>
+      simp only []
+      split
+      · exact ih
+      · rw [ih]; rfl
+
+theorem renderFs_Y_nulls (T : Tables) (s : String) (fs : List C16HField) :
+    renderFs polY T s (fs.map fun f => (f.hcl, V.null)) = [] := by
+  induction fs with
+  | nil => rfl
+  | cons f rest ih =>
+    simp only [List.map_cons]
+    rw [renderFs_cons_Y]
+    cases findH T s f.hcl with
+    | none => exact ih
+    | some f' => simp [omitY, isNull, ih]
+
+theorem isNull_completeV (T : Tables) (ty : C16HTy) (v : V) : isNull (completeV T ty v) = isNull v := by
+  cases v <;> cases ty <;> simp [completeV, isNull]
+
+theorem isEmptySeq_completeV (T : Tables) (ty : C16HTy) (v : V) : isEmptySeq (completeV T ty v) = isEmptySeq v := by
+  cases v with
+  | seq xs =>
+    cases ty with
+    | structList s => cases xs <;> simp [completeV, completeXs, isEmptySeq]
+    | _ => simp [completeV]
+  | map fs => cases ty <;> simp [completeV, isEmptySeq]
+  | _ => simp [completeV, isEmptySeq]
+
+theorem omitY_completeV (T : Tables) (f : C16HField) (ty : C16HTy) (v : V) :
+    omitY f (completeV T ty v) = omitY f v := by
+  simp [omitY, isNull_completeV, isEmptySeq_completeV]
+
+theorem renderV_Y_complete (T : Tables) :
+    ∀ v : V, ∀ ty, renderV polY T ty (completeV T ty v) = renderV polY T ty v := by
+  intro v
+  induction v using V.ind' with
+  | hnull => intros; simp [completeV]
+  | hstr s => intros; simp [completeV]
+  | hint i => intros; simp [completeV]
+  | hbool b => intros; simp [completeV]
+  | hseq xs ih =>
+    intro ty
+    cases ty with
+    | leaf l => simp [completeV]
+    | struct s => simp [completeV]
+    | structList s =>
+      simp only [completeV, renderV]
+      congr 1
+      induction xs with
+      | nil => rfl
+      | cons x rest ihr =>
+        simp only [completeXs, renderXs]
+        rw [ih x (List.mem_cons_self ..), ihr (fun y hy => ih y (List.mem_cons_of_mem _ hy))]
+  | hmap fs ih =>
+    intro ty
+    cases ty with
+    | leaf l => simp [completeV]
+    | structList s => simp [completeV]
+    | struct s =>
+      simp only [completeV, renderV]
+      congr 1
+      rw [renderFs_append, renderFs_Y_nulls, List.append_nil]
+      induction fs with
+      | nil => rfl
+      | cons e rest ihr =>
+        obtain ⟨k, x⟩ := e
+        have ihrest := ihr (fun e he => ih e (List.mem_cons_of_mem _ he))
+        simp only [completeFs]
+        cases hH : findH T s k with
+        | none =>
+          simp only []
+          rw [renderFs_cons_Y, renderFs_cons_Y, hH]
+          exact ihrest
+        | some f =>
+          simp only []
+          rw [renderFs_cons_Y, renderFs_cons_Y, hH]
+          simp only []
+          rw [omitY_completeV, ih (k, x) (List.mem_cons_self ..) f.ty, ihrest]
+
 /-! ### survival of a field through the HCL hop -/
 
 theorem decodeFs_mem (T : Tables) (s : String) (isP : Bool) (k : String) (y : V) (e : String × V) :
@@ -517,6 +608,39 @@ theorem leaf_survives (rec : String → Target → Bool) (T : Tables) (sh sc : S
         have hdec : decodeV T g.ty x = some x := by
           cases hg : g.ty <;> simp_all [tyRel, decodeV_leaf, decodeV_optLeaf]
         simp [decEntry, hC, hdec]
+
+/-- the same for the config struct of a plugin (`sc` = config struct of the registered constructor that the block's
+`type` label selects), for a field that this plugin knows -/
+theorem leaf_survives_plugin (rec : String → Target → Bool) (T : Tables) (sh sc : String)
+    (hall : ∀ f ∈ hFields T sh, fieldOK rec T sc true f = true)
+    (fs : List (String × V)) (k : String) (x : V) (f : C16HField) (g : C16CField)
+    (hmem : (k, x) ∈ fs) (hf : findH T sh k = some f) (hleaf : isLeafTy f.ty = true) (hnz : zeroLeaf x = false)
+    (hnt : eqFold f.yaml T.nameKey = false) (hC : findC T sc f.yaml = some g) :
+    (g.go, x) ∈ decodeFs T sc true (renderFs polM T sh fs) := by
+  have hOK := hall f (findH_mem hf)
+  unfold fieldOK keyOK at hOK
+  simp only [Bool.and_eq_true, Bool.or_eq_true, Bool.not_eq_true', bne_iff_ne, ne_eq, hnt, Bool.and_false,
+    Bool.false_eq_true, if_false, hC] at hOK
+  obtain ⟨⟨⟨⟨hdash, _⟩, _⟩, _⟩, hrel, _⟩ := hOK
+  have hdash' : (f.yaml == "-") = false := by simpa using hdash
+  cases hty : f.ty with
+  | struct s => simp [hty, isLeafTy] at hleaf
+  | structList s => simp [hty, isLeafTy] at hleaf
+  | leaf l =>
+    have hnn : isNull x = false := by cases x <;> simp_all [isNull, zeroLeaf]
+    have hskip : omitM f x = false := by
+      cases hM : omitM f x with
+      | false => rfl
+      | true =>
+        rcases omitM_zero f x hdash' hM with h | h
+        · rw [hnn] at h; cases h
+        · rw [hty] at h; simp only [zeroTy] at h; rw [hnz] at h; cases h
+    have hin := renderFs_mem T sh k x f hf hskip fs hmem
+    rw [hty, renderV_leaf] at hin
+    refine decodeFs_mem T sc true f.yaml x (g.go, x) _ hin ?_
+    have hdec : decodeV T g.ty x = some x := by
+      cases hg : g.ty <;> simp_all [tyRel, decodeV_leaf, decodeV_optLeaf]
+    simp [decEntry, hnt, hC, hdec]
 
 /-- a block written in HCL field `f` reaches the config field that `f`'s yaml key selects -/
 theorem block_survives (rec : String → Target → Bool) (T : Tables) (sh sc : String)
